@@ -106,7 +106,7 @@ class Block(Entity):
             msg = "MultiTag Creation Failed"
             if name in multi_tags:
                 # a multi-tag whose positions were refused
-                multi_tags.delete(name)
+                multi_tags.delete(name, exact=True)
             if poscreated:
                 del self.data_arrays["{}-positions".format(name)]
             else:
@@ -155,7 +155,7 @@ class Block(Entity):
         except Exception:
             # do not leave a tag without position behind
             if name in tags:
-                tags.delete(name)
+                tags.delete(name, exact=True)
             raise
         return tag
 
@@ -269,7 +269,7 @@ class Block(Entity):
         except Exception:
             # do not leave a half-initialised array behind
             if name in data_arrays:
-                data_arrays.delete(name)
+                data_arrays.delete(name, exact=True)
             raise
         return da
 
@@ -386,7 +386,7 @@ class Block(Entity):
         except Exception:
             # do not leave a frame without (all of) its data behind
             if name in data_frames:
-                data_frames.delete(name)
+                data_frames.delete(name, exact=True)
             raise
         return df
 
